@@ -71,6 +71,14 @@ def _check_events(out, events, n_closes, n_err_reports, desc, race=''):
                 break
 
 
+def _dispatcher_busy(s, env):
+    link = env.world.links[-1] if env.world.links else None
+    for lt in s.threads:
+        if lt.name.startswith('_IncomingPacketHandler') and lt.state != 'DONE':
+            return not (lt.state == 'BLOCKED' and (lt.idle or (link is not None and lt.waiting_on is link.wakeup)))
+    return False
+
+
 def run_life(case):
     from cflib.crazyflie.syncCrazyflie import SyncCrazyflie
     out = Outcome()
@@ -102,6 +110,7 @@ def run_life(case):
                     out.fail('life:fully-connected-without-values', '%s.%s has no value' % (p['group'], p['name']))
                     break
         cf.fully_connected.add_callback(on_fully)
+        race = {'error': False, 'close': False}
         attempts = list(case['attempts']) + [{'fault': None, 'close_at': None, 'sync': case['attempts'][-1]['sync'] if case['attempts'] else False, 'final': True}]
         scf = SyncCrazyflie('sim://1', cf=cf)
         for ai, at in enumerate(attempts):
@@ -133,6 +142,8 @@ def run_life(case):
                             try:
                                 if scf.is_link_open():
                                     closes[0] += 1
+                                    if _dispatcher_busy(s, env):
+                                        race['close'] = True
                                 scf.close_link()
                                 user['close'] = 'returned'
                             except Exception as e:  # noqa
@@ -150,11 +161,15 @@ def run_life(case):
                         s.sleep(at['close_at'])
                         if not (at.get('late_close') and cf.link is None):
                             closes[0] += 1
+                            if _dispatcher_busy(s, env):
+                                race['close'] = True
                             cf.close_link()
                     s.sleep(30.0)
                     if at.get('final'):
                         user['fully'] = 'fully_connected' in [e[1] for e in rec.events[ev0:]]
                         closes[0] += 1
+                        if _dispatcher_busy(s, env):
+                            race['close'] = True
                         cf.close_link()
                         s.sleep(5.0)
             except Deadlock as e:
@@ -165,9 +180,10 @@ def run_life(case):
                 return out
             evs = [e[1] for e in rec.events[ev0:]]
             nerr = 1 if env.world.fault_fired else 0
-            race = ':error-reported-while-dispatching' if nerr and env.world.fault_context.get('dispatcher_busy') else ''
+            if nerr and env.world.fault_context.get('dispatcher_busy'):
+                race['error'] = True
             env.world.fault_context = {}
-            _check_events(out, evs, closes[0], nerr, desc, race)
+            _check_events(out, evs, closes[0], nerr, desc, '')
             if s.deaths:
                 out.fail('life:thread-died:' + s.deaths[0][1][:70], '%s: %s' % (desc, s.deaths[0][2][-500:]))
                 return out
@@ -199,6 +215,15 @@ def run_life(case):
                 if at.get('close_at') is not None and 'link_established' in evs and 'fully_connected' not in evs:
                     inside = True
         # stale threads: every library thread is parked or finished; nothing died
+    # The link going down (error report or close_link from another thread) while the dispatcher thread is in the middle of
+    # dispatching a packet is a listed known finding: the late dispatch pollutes the state of the attempt and of later
+    # attempts in many ways. Everything observed in such a case is folded into one signature per mechanism.
+    if out.violations and (race['error'] or race['close']):
+        tag = 'error-reported-while-dispatching' if race['error'] else 'closed-while-dispatching'
+        msgs = '; '.join('%s: %s' % (sig, msg[:300]) for sig, msg in out.violations[:3])
+        out.violations = [('life:anomaly-after-%s' % tag, msgs)]
+    if race['error'] or race['close']:
+        out.feat('race-link-down-while-dispatching')
     out.nontrivial = inside or after_connected
     out.feat('fault-inside-handshake' if inside else 'no-inside', 'fault-after-connected' if after_connected else 'no-after-connected',
              'attempts-%d' % len(case['attempts']), 'sync' if any(a.get('sync') for a in case['attempts']) else 'plain',
